@@ -7,6 +7,7 @@ package sched
 
 import (
 	"fmt"
+	"os"
 	"runtime"
 	"sort"
 	"strings"
@@ -16,6 +17,8 @@ import (
 
 	"verifsim/tape"
 )
+
+var debugKeys = os.Getenv("VSIM_DEBUG_KEYS") == "1"
 
 type Option struct {
 	Name   string
@@ -160,7 +163,24 @@ func (s *Sim) Park(key string, opts []Option) int {
 	e := &entry{key: k, opts: opts, ch: make(chan int, 1)}
 	s.parked[k] = e
 	s.mu.Unlock()
-	return <-e.ch
+	r := <-e.ch
+	// Fresh random stream (map order, select order) for the released goroutine, named by
+	// the decision that released it: independent of the goroutine's history.
+	nk := k
+	if s.Norm != nil {
+		nk = s.Norm(k)
+	}
+	runtime.VerifReseed(releaseEpoch(nk, r>>8))
+	return r & 0xff
+}
+
+func releaseEpoch(key string, step int) uint64 {
+	h := uint64(1469598103934665603)
+	for i := 0; i < len(key); i++ {
+		h ^= uint64(key[i])
+		h *= 1099511628211
+	}
+	return h ^ uint64(step)*0x9e3779b97f4a7c15
 }
 
 // Yield is Park with the single option "go".
@@ -276,6 +296,9 @@ func (s *Sim) Step(allowTime bool, filter Filter) (progressed bool) {
 		return false
 	}
 	s.mu.Unlock()
+	if debugKeys {
+		s.Logf("  enabled: %s", strings.Join(keys, " | "))
+	}
 	pick := s.T.Weighted(weights, "sched")
 	a := alts[pick]
 	s.Steps++
@@ -298,7 +321,7 @@ func (s *Sim) Step(allowTime bool, filter Filter) (progressed bool) {
 	} else {
 		s.Logf("release %s", a.key)
 	}
-	e.ch <- a.opt
+	e.ch <- s.Steps<<8 | a.opt
 	return true
 }
 
